@@ -16,7 +16,9 @@ EXTENDS Naturals, Sequences, FiniteSets, TLC, Json
 CONSTANTS MaxEv,     \* events per history after the initial full connection
           Kinds      \* subset of {"id", "tkt12", "psk13"}
 
-Variants == {"same", "suiteRemoved", "emsDropped", "etmDropped", "sniChanged"}
+\* "verRaised": the client (and the server) meanwhile enable TLS 1.3 and the client still offers its session of an
+\* older protocol version: a session belongs to its version - TLS 1.3 is negotiated with a full handshake
+Variants == {"same", "suiteRemoved", "emsDropped", "etmDropped", "sniChanged", "verRaised"}
 
 VARIABLES authd,    \* the client authenticates with a certificate in the first connection only; afterwards it presents none
           kind,     \* resumption mechanism of this history
@@ -40,7 +42,8 @@ Consistent(v) == /\ v # "suiteRemoved"
                  /\ v # "sniChanged"
 \* prediction for a connect with ClientHello variant v
 Predict(v) ==
-  IF ~sess.exists THEN "full"
+  IF v = "verRaised" THEN "full-end"                             \* full handshake, must complete; the history ends
+  ELSE IF ~sess.exists THEN "full"
   ELSE IF ~Consistent(v) THEN "full-or-abort"                    \* inconsistent ClientHello: never resumed
   \* RFC 7627 5.3: the original session did not use EMS but the new ClientHello offers it:
   \* the server MUST NOT resume and MUST continue with a full handshake
@@ -68,11 +71,12 @@ Connect(v) ==
   /\ ~open /\ ~done /\ Len1
   /\ (hist = <<>> => v = "same")                      \* the first connection is an ordinary full handshake
   /\ (v \in {"emsDropped", "etmDropped"} => kind # "psk13" \/ v = "etmDropped")
+  /\ (v = "verRaised" => kind # "psk13" /\ hist # <<>>)
   /\ LET p == Predict(v) IN
        \* a resumed connection carries the original's authenticated identity; any full handshake only what was
        \* proven in it - in particular NOT the identity named by a ticket that was declined
        /\ hist' = Append(hist, EvC(v, p, IF p = "resume" THEN sess.cid ELSE Presented))
-       /\ IF p = "full-or-abort"
+       /\ IF p \in {"full-or-abort", "full-end"}
           THEN done' = TRUE /\ UNCHANGED <<sess, open>>        \* outcome not determined: history ends here
           ELSE /\ done' = FALSE /\ open' = TRUE
                /\ sess' = IF p = "resume"
@@ -137,14 +141,14 @@ ResumeOnlyIfEligible ==
         (sess.exists /\ sess.resumable /\ ~sess.expired /\ ~sess.tampered /\ Consistent(v))]_vars
 \* forged / altered / expired / foreign / unknown never resumes and never breaks the connection
 IneligibleFallsBack ==
-  [][\A v \in Variants : (Connect(v) /\ sess.exists /\ ~EligibleBase /\ Consistent(v)) => Predict(v) = "full"]_vars
+  [][\A v \in Variants : (Connect(v) /\ sess.exists /\ ~EligibleBase /\ Consistent(v)) => Predict(v) \in {"full", "full-end"}]_vars
 \* the resumed connection keeps the original's EMS / EtM properties
 ResumedInherits ==
   [][\A v \in Variants : (Connect(v) /\ Predict(v) = "resume") =>
         (sess'.ems = sess.ems /\ sess'.etm = sess.etm /\ sess'.cid = sess.cid)]_vars
 \* an identity is attributed only by the handshake that proved it or by a resumption of that very session
 IdentityFromProofOrResumption ==
-  [][\A v \in Variants : (Connect(v) /\ Predict(v) # "resume" /\ Predict(v) # "full-or-abort") => sess'.cid = Presented]_vars
+  [][\A v \in Variants : (Connect(v) /\ Predict(v) \notin {"resume", "full-or-abort", "full-end"}) => sess'.cid = Presented]_vars
 
 \* a history is emitted when it cannot be extended further or ends in a connect
 Emit == (hist # <<>> /\ hist[Len(hist)].e = "connect" /\ Len(hist) >= 2) =>
